@@ -697,6 +697,13 @@ class World:
         if _CUR is self:
             _CUR = None
 
+    def activate(self):
+        """make this world current again (several worlds may be alive, one runs at a time)"""
+        global _CUR
+        _CUR = self
+        asyncio.set_event_loop(self.aloop)
+        _AUDIT['on'] = True
+
     def breach(self):
         """real-kernel process calls seen while this world was current"""
         return list(_AUDIT['hits'])
